@@ -205,7 +205,7 @@ fn run_interp<M: AlignMarker>(desc: &RunDesc) -> ! {
     let max_rounds = if cfg.janitor_rounds > 0 { cfg.janitor_rounds as u64 } else { 8 * (nobj_guess + 8) };
     specs.push(ThreadSpec {
         phase: max_phase + 1,
-        stack: 2 << 20,
+        stack: if cfg.janitor_stack_kib != 0 { (cfg.janitor_stack_kib as usize) << 10 } else { 2 << 20 },
         name: "janitor",
         body: Arc::new(move |tid| {
             let rounds = interp::run_janitor::<M>(tid, world, max_rounds);
